@@ -136,6 +136,24 @@ impl FoldFSM {
         self.result_lore.extend(fold_lore);
     }
 
+    /// Fold lore taken from the previous and the current data that no iteration has claimed so far:
+    /// (previous entries, previous states, current entries, current states).
+    #[cfg(aquavm_verif)]
+    pub(crate) fn verif_unclaimed_lore(&self) -> (usize, u64, usize, u64) {
+        let states = |fold: &ResolvedFold| {
+            fold.lore
+                .values()
+                .map(|lore| lore.before_subtrace.subtrace_len as u64 + lore.after_subtrace.subtrace_len as u64)
+                .sum::<u64>()
+        };
+        (
+            self.prev_fold.lore.len(),
+            states(&self.prev_fold),
+            self.current_fold.lore.len(),
+            states(&self.current_fold),
+        )
+    }
+
     pub(crate) fn meet_fold_end(self, data_keeper: &mut DataKeeper) {
         // TODO: check for prev and current lore emptiness
         let fold_result = FoldResult { lore: self.result_lore };
